@@ -114,6 +114,7 @@ type FnEnc struct {
 	refAlias map[string][]string
 	refAxioms bool // emit the reference well-formedness axiom for unknown pointer-valued heap arrays
 	epochDeclared map[string]bool
+	atCallSeen    map[int]bool
 	globalFactSeen map[string]bool
 	rawUsed  map[string]bool
 	fbits    map[string]string
